@@ -229,6 +229,7 @@ Section Recover.
                   if negb (f_penalty fm =? 0) then panic "fault penalty outside the modelled domain" else
                   let zero := "0.000000000000000000" in
                   let confirmers := str_split "|" (str_drop_chars ["+"%char; "-"%char] (f_confirms fo)) in
+                  if existsb (String.eqb "") (f_reporter fo :: confirmers) then panic "key is nil" else
                   modify (fun s => s <| fishing ::= (fun m => fold_left (fun m c => <[c := zero]> m) confirmers (<[f_reporter fo := zero]> m)) |>) ;;;
                   modify (fun s => s <| faults ::= delete (f_id fm) |> <| fault_idx ::= delete rawkey |>)
                 else set_fault rawkey fm
@@ -251,7 +252,7 @@ Section Recover.
     destruct upd as [fm|]; [|cbn; reflexivity]. destruct (Hupd fm eq_refl) as [Eid Ep].
     destruct (fault_by_sp_shard_idx s (fi_shard f) fo Hfo) as (raw0 & fid0 & Hi & Hf0).
     match goal with |- context [if ?b then _ else set_fault _ _] => destruct b end.
-    - destruct (negb (f_penalty fm =? 0)); [exact I|]. cbv zeta. unfold bind, modify. intros K.
+    - destruct (negb (f_penalty fm =? 0)); [exact I|]. cbv zeta. destruct (existsb _ _); [exact I|]. unfold bind, modify. intros K.
       assert (E0 : f_id fo = fid0) by (apply K, Hf0). rewrite <- E0 in Hi.
       eapply (Rrec_delete s raw0 (fi_shard f) fo rawkey fm _ Hi Eid K).
     - unfold set_fault, modify. intros K.
